@@ -69,6 +69,27 @@ def strategy(tier):
     return st.tuples(base, extra).map(lambda t: dict(t[0], **t[1]))
 
 
+def exhaustive(tier):
+    # structures too large for the sampled geometries to reach often: cell arrays beyond 64 Ki entries / 64 KiB / 1 MiB (anything that
+    # clears, copies or exports block-wise has a last partial block here); a few fixed short histories each, then the usual reads
+    # and the comparison of clear() with a fresh structure
+    def gen_():
+        extra = {"probes": ["s:zz", "b:00ff"], "reads": [[i, i, 1 + i % 3] for i in range(0, 30, 3)], "follow": [[0, 1, False], [2, 3, False]],
+                 "other": [0, 1], "zero_before_clear": 0}
+        pool = ["s:a", "s:b", "b:6363", "s:dd", "s:e"]
+        for cls in ("cms", "hh", "st"):
+            for conf, err in ((0.96, 0.0001), (0.999, 0.00003)):
+                yield dict(extra, s="cms", cls=cls, hash="default", pool=pool, qt="min", hitters=2, threshold=3, conf=conf, err=err,
+                           ops=[["add", 0, 4], ["add", 1, 2], ["add", 2, 7], ["remove", 0, 1]], alt_mode="", verify_mask=0)
+        for kind, est in (("bloom", 700000), ("ondisk", 1000000), ("bloom", 9000000 if tier != "quick" else 1100000)):
+            yield dict(extra, s="bloom", kind=kind, est=est, fpr=0.01, hash="default", pool=pool, ops=[["add", 0], ["add", 1], ["add", 2]],
+                       stat_mask=0, alt_mode="", verify_mask=0)
+        yield dict(extra, s="cbloom", t="cbloom", est=40000, fpr=0.01, hash="default", pool=pool, ops=[["add", 0, 3], ["add", 1, 1], ["remove", 0, 1]],
+                   alt_mode="", verify_mask=0)
+
+    return [("large_structures_fixed_histories", gen_)]
+
+
 NX = "C19.read_raises"
 
 
